@@ -276,6 +276,36 @@ func dumpSchema(s *schema.Schema) string {
 	return strings.Join(ts, "")
 }
 
+// canonAuto maps, in a schema dump, the index line of an inline UNIQUE constraint
+// (sqlite_autoindex_<t>_<n>, origin u) and the line of the named index normalizeIdxName gives it
+// (<t>_<col>_..., origin c) to the same text.
+func canonAuto(d string) string {
+	var out []string
+	table := ""
+	for _, l := range strings.Split(d, "\n") {
+		if strings.HasPrefix(l, "T ") {
+			table = strings.Fields(l)[1]
+		}
+		if strings.HasPrefix(l, "  I ") {
+			f := strings.Fields(l)
+			// f = I name u=.. (cols) [where(..)] origin=..
+			name, cols := f[1], ""
+			if i := strings.Index(l, "("); i >= 0 {
+				if j := strings.Index(l[i:], ")"); j >= 0 {
+					cols = l[i+1 : i+j]
+				}
+			}
+			norm := table + "_" + strings.ReplaceAll(cols, ",", "_")
+			if strings.HasPrefix(name, "sqlite_autoindex_") && strings.HasSuffix(l, "origin=u") || name == norm && strings.HasSuffix(l, "origin=c") && strings.Contains(l, "u=true") {
+				l = "  I <uniq:" + cols + "> u=true (" + cols + ")"
+			}
+		}
+		out = append(out, l)
+	}
+	sort.Strings(out)
+	return strings.Join(out, "\n")
+}
+
 func trunc(s string, n int) string {
 	if len(s) > n {
 		return s[:n] + "..."
@@ -512,6 +542,13 @@ func genUpDown(tier string) []ucase {
 			d := e.apply(b.clone())
 			add(b, d, fmt.Sprintf("b%d:%s", bi, e.label), true, "", false)
 			add(d, b, fmt.Sprintf("b%d:undo:%s", bi, e.label), true, "", false)
+			if strings.HasPrefix(e.label, "DT") {
+				add(b, d, fmt.Sprintf("b%d:%s", bi, e.label), true, "", true)
+				add(b, d, fmt.Sprintf("b%d:%s", bi, e.label), false, "", true)
+			}
+			if strings.HasPrefix(e.label, "AT") {
+				add(d, b, fmt.Sprintf("b%d:undo:%s", bi, e.label), true, "", true)
+			}
 		}
 	}
 	// 2. hand-built rename change sets
@@ -678,7 +715,15 @@ func runUpDownStage(w *out.W, tier string) {
 			w.Count("setup-error:" + trunc(r.err, 60))
 			continue
 		}
-		w.ImplOnly(c.id, head+" changes="+strings.Join(r.changes, " "))
+		var tags []string
+		for _, ch := range r.changes {
+			if strings.Contains(ch, "-I(sqlite_autoindex_") {
+				tags = append(tags, "autoindex-drop")
+				break
+			}
+		}
+		head += " changes=" + strings.Join(r.changes, " ") + " tags=[" + strings.Join(tags, ",") + "]"
+		w.ImplOnly(c.id, head)
 		if r.planErr != "" {
 			w.Count("plan-error")
 			continue
@@ -743,6 +788,12 @@ func runUpDownStage(w *out.W, tier string) {
 		}
 		if len(r.downDiff) > 0 {
 			w.Violation(c.id, "down-diff", fmt.Sprintf("reversible plan executed up and down, schema differs from the start: %s | %s | plan: %s", strings.Join(r.downDiff, " "), head, pt))
+			continue
+		}
+		if r.strict && canonAuto(r.s0) == canonAuto(r.s2) {
+			// DROP TABLE's reverse re-creates an inline UNIQUE constraint (sqlite_autoindex_<t>_<n>, origin u) as
+			// a named unique index <t>_<cols> (origin c): the differ treats the two as the same index
+			w.Count("restored-up-to-autoindex-name")
 			continue
 		}
 		if r.strict {
